@@ -40,8 +40,13 @@ var c14ctx = context.Background()
 
 // ---------------------------------------------------------------------------------------------- goroutine gate
 
+type c14Loop struct {
+	id     int
+	delays []time.Duration
+}
+
 type c14Parked struct {
-	loop    int
+	loop    *c14Loop
 	kind    string // enter | after
 	release chan struct{}
 	timer   chan time.Time
@@ -51,25 +56,15 @@ type c14Parked struct {
 type c14Sim struct {
 	t        testing.TB
 	mu       sync.Mutex
-	mainGoid int64
 	baseline int
-	free     bool
+	free     bool // after the restart: gates never block, loops run concurrently
 	parked   []*c14Parked
-	loops    int
-	loopOf   map[int64]int
-	delays   map[int][]time.Duration
-}
-
-func c14Goid() int64 {
-	var buf [64]byte
-	n := runtime.Stack(buf[:], false)
-	f := strings.Fields(string(buf[:n]))
-	id, _ := strconv.ParseInt(f[1], 10, 64)
-	return id
+	loops    []*c14Loop
+	running  int // serial phase: the loop that holds the baton (-1 = the main goroutine)
 }
 
 func newC14Sim(t testing.TB) *c14Sim {
-	s := &c14Sim{t: t, mainGoid: c14Goid(), loopOf: map[int64]int{}, delays: map[int][]time.Duration{}}
+	s := &c14Sim{t: t, running: -1}
 	retry.VerifHook = &retry.VerifHooks{Enter: s.enter, Exit: s.exit, After: s.after}
 	t.Cleanup(func() { retry.VerifHook = nil })
 	// baseline: the goroutine count when nothing of the harness runs
@@ -89,48 +84,38 @@ func newC14Sim(t testing.TB) *c14Sim {
 
 func (s *c14Sim) reset() {
 	s.mu.Lock()
-	s.free, s.parked, s.loops = false, nil, 0
-	s.loopOf, s.delays = map[int64]int{}, map[int][]time.Duration{}
+	s.free, s.parked, s.loops, s.running = false, nil, nil, -1
 	s.mu.Unlock()
 }
 
-func (s *c14Sim) enter() {
-	g := c14Goid()
+func (s *c14Sim) enter() any {
 	s.mu.Lock()
-	id := s.loops
-	s.loops++
-	s.loopOf[g] = id
+	l := &c14Loop{id: len(s.loops)}
+	s.loops = append(s.loops, l)
 	if s.free {
 		s.mu.Unlock()
-		return
+		return l
 	}
-	p := &c14Parked{loop: id, kind: "enter", release: make(chan struct{})}
+	p := &c14Parked{loop: l, kind: "enter", release: make(chan struct{})}
 	s.parked = append(s.parked, p)
 	s.mu.Unlock()
 	<-p.release
+	return l
 }
 
-func (s *c14Sim) exit() {
-	g := c14Goid()
-	s.mu.Lock()
-	delete(s.loopOf, g)
-	s.mu.Unlock()
-}
+func (s *c14Sim) exit(any) {}
 
-func (s *c14Sim) after(d time.Duration) <-chan time.Time {
-	g := c14Goid()
+func (s *c14Sim) after(token any, d time.Duration) <-chan time.Time {
+	l := token.(*c14Loop)
 	s.mu.Lock()
 	defer s.mu.Unlock()
-	id, ok := s.loopOf[g]
-	if ok {
-		s.delays[id] = append(s.delays[id], d)
-	}
+	l.delays = append(l.delays, d)
 	ch := make(chan time.Time, 1)
 	if s.free {
 		ch <- time.Time{}
 		return ch
 	}
-	s.parked = append(s.parked, &c14Parked{loop: id, kind: "after", timer: ch})
+	s.parked = append(s.parked, &c14Parked{loop: l, kind: "after", timer: ch})
 	return ch
 }
 
@@ -138,17 +123,20 @@ func (s *c14Sim) nParked() int { s.mu.Lock(); defer s.mu.Unlock(); return len(s.
 
 // settle waits until every goroutine beyond the baseline is parked at a gate (or, in free mode, gone).
 func (s *c14Sim) settle() {
-	deadline := time.Now().Add(60 * time.Second)
+	var deadline time.Time
 	for i := 0; ; i++ {
 		if runtime.NumGoroutine()-s.baseline == s.nParked() {
 			return
 		}
-		if i < 50 {
+		if i < 5000 {
 			runtime.Gosched()
-		} else {
-			time.Sleep(20 * time.Microsecond)
+			continue
 		}
-		if i%1000 == 999 && time.Now().After(deadline) {
+		if deadline.IsZero() {
+			deadline = time.Now().Add(60 * time.Second)
+		}
+		time.Sleep(10 * time.Microsecond)
+		if i%500 == 0 && time.Now().After(deadline) {
 			buf := make([]byte, 1<<16)
 			n := runtime.Stack(buf, true)
 			s.t.Fatalf("harness: no quiescence: %d goroutines, baseline %d, parked %d\n%s", runtime.NumGoroutine(), s.baseline, s.nParked(), buf[:n])
@@ -156,14 +144,17 @@ func (s *c14Sim) settle() {
 	}
 }
 
-// onMain is the synchronisation point of the main goroutine: every loop that was spawned since the last
-// point gets parked (and so gets its place in the queue) before main goes on.
+// onMain is the synchronisation point of the main goroutine in the serial phase: every loop that was spawned
+// since the last point gets parked (and so gets its place in the queue) before main goes on.
 func (s *c14Sim) onMain() {
-	if s.free || c14Goid() != s.mainGoid {
+	if s.free || s.running >= 0 {
 		return
 	}
 	s.settle()
 }
+
+// currentLoop is the retry loop that is running (serial phase only; -1 = main).
+func (s *c14Sim) currentLoop() int { return s.running }
 
 // releaseOldest lets the longest-parked loop run until it parks again or ends.
 func (s *c14Sim) releaseOldest() {
@@ -174,6 +165,7 @@ func (s *c14Sim) releaseOldest() {
 	}
 	p := s.parked[0]
 	s.parked = s.parked[1:]
+	s.running = p.loop.id
 	s.mu.Unlock()
 	if p.kind == "enter" {
 		close(p.release)
@@ -181,6 +173,7 @@ func (s *c14Sim) releaseOldest() {
 		p.timer <- time.Time{}
 	}
 	s.settle()
+	s.running = -1
 }
 
 // abandon ends every loop of a dead instance: contexts are cancelled by the caller, loops parked before
@@ -190,6 +183,7 @@ func (s *c14Sim) abandon() {
 	s.mu.Lock()
 	ps := s.parked
 	s.parked = nil
+	s.running = -2 // neither main nor a loop: no synchronisation while the dead instance unwinds
 	s.mu.Unlock()
 	for _, p := range ps {
 		if p.kind == "enter" {
@@ -197,6 +191,7 @@ func (s *c14Sim) abandon() {
 		}
 	}
 	s.settle()
+	s.running = -1
 }
 
 // ---------------------------------------------------------------------------------------------- scenario
@@ -213,7 +208,8 @@ type c14Scenario struct {
 	Script  string  `json:"script"` // ok | fail1 | fail3 | incomplete2 | fatal | failforever | fail9 | fail10 | fail19 | fail20 | fail21
 	Drain   string  `json:"drain"`  // each | end
 	Order   string  `json:"order"`  // asc | desc: the order in which the state visits its notifiers (deterministic Range of the sync shim, by name)
-	StopAt  int     `json:"stop_at"`
+	StopAt  int     `json:"stop_at"`             // stop immediately before this numbered write step (0 = none)
+	StopCall int    `json:"stop_call,omitempty"` // or: stop immediately before the n-th receiver call is made (the subscriber never sees it)
 	Restart string  `json:"restart,omitempty"`
 }
 
@@ -323,18 +319,13 @@ type c14Run struct {
 	opErr   []string // "ok" | "err" | "stopped" | "not-run"
 	runaway bool
 	postMortem int
+	entries  int // life 0: receiver entries so far
+	diedAtCall bool
+	diedSteps  int
 	mu       sync.Mutex
 	stepLoop []int // life 0: which retry loop performed step N (-1 = the main goroutine)
 }
 
-func (s *c14Sim) currentLoop() int {
-	s.mu.Lock()
-	defer s.mu.Unlock()
-	if id, ok := s.loopOf[c14Goid()]; ok {
-		return id
-	}
-	return -1
-}
 
 func (rn *c14Run) open(path string) {
 	inner, err := bbolt.CreateBBoltStore(path, stoabs.WithNoSync(), stoabs.WithLockAcquireTimeout(20*time.Second))
@@ -388,6 +379,21 @@ func (rn *c14Run) receive(sp c14SubSpec, life int, kv *fault.KV, e Event) (bool,
 		return false, errors.New("verif: process stopped")
 	}
 	rn.sim.onMain()
+	if life == 0 && rn.sc.StopCall > 0 {
+		rn.mu.Lock()
+		rn.entries++
+		hit := rn.entries == rn.sc.StopCall
+		rn.mu.Unlock()
+		if hit {
+			// the process dies before the subscriber sees the event
+			rn.diedAtCall, rn.diedSteps = true, kv.Steps()
+			kv.Kill()
+			if rn.sim.currentLoop() < 0 {
+				panic(fault.Stopped{}) // no store transaction is open while a receiver is called
+			}
+			return false, errors.New("verif: process stopped")
+		}
+	}
 	name := rn.names[e.Hash]
 	key := sp.name + "|" + name + "|" + e.Type
 	loop := rn.sim.currentLoop()
@@ -526,7 +532,11 @@ func (rn *c14Run) pending() map[string]map[string]int {
 }
 
 // c14Execute runs one scenario: life 0 with the planned stop (0 = none), restart, Run, quiescence.
+var c14T [8]time.Duration
+
 func c14Execute(t testing.TB, sim *c14Sim, sc c14Scenario, txs []Transaction, pays [][]byte, names map[hash.SHA256Hash]string) *c14Result {
+	tm := time.Now()
+	lap := func(i int) { n := time.Now(); c14T[i] += n.Sub(tm); tm = n }
 	dir, err := os.MkdirTemp("", "c14r")
 	if err != nil {
 		t.Fatal(err)
@@ -537,6 +547,7 @@ func c14Execute(t testing.TB, sim *c14Sim, sc c14Scenario, txs []Transaction, pa
 	sim.settle()
 	rn := &c14Run{t: t, sim: sim, sc: sc, dir: dir, txs: txs, pays: pays, names: names, counts: map[string]int{}, subs: c14Subs(sc.Set)}
 	rn.open(path)
+	lap(0)
 	res := &c14Result{}
 	mode := fault.None
 	if sc.StopAt > 0 {
@@ -579,6 +590,7 @@ func c14Execute(t testing.TB, sim *c14Sim, sc c14Scenario, txs []Transaction, pa
 		drain()
 	})
 	sim.settle()
+	lap(1)
 	res.Trace = rn.kv.Trace()
 	fired, at := rn.kv.Fired()
 	res.Stopped = fired || stopped != nil || rn.kv.Dead()
@@ -586,13 +598,19 @@ func c14Execute(t testing.TB, sim *c14Sim, sc c14Scenario, txs []Transaction, pa
 	if sc.StopAt > 0 && !fired {
 		res.Stopped = false // the run ended before the planned step
 	}
+	if sc.StopCall > 0 {
+		res.Stopped = rn.diedAtCall
+		res.StopStep = fault.Step{N: rn.diedSteps + 1, Kind: "receiver-call"} // every step made so far took effect
+	}
 	// the restart: abandon the instance, open the file again, re-register, Run
 	if !rn.kv.Dead() {
 		rn.kv.Kill() // a clean stop after quiescence
 	}
 	rn.closeInstance()
+	lap(2)
 	rn.life = 1
 	rn.open(path)
+	lap(3)
 	res.Pending1 = rn.pending()
 	res.Present, res.PayPresent = map[string]bool{}, map[string]bool{}
 	for i, tx := range txs {
@@ -613,6 +631,7 @@ func c14Execute(t testing.TB, sim *c14Sim, sc c14Scenario, txs []Transaction, pa
 		}
 	}
 	sim.settle()
+	lap(4)
 	res.PendingZ = rn.pending()
 	res.Failed = map[string]map[string]bool{}
 	for i, n := range rn.notifs {
@@ -627,10 +646,14 @@ func c14Execute(t testing.TB, sim *c14Sim, sc c14Scenario, txs []Transaction, pa
 		res.Failed[rn.subs[i].name] = m
 	}
 	sim.mu.Lock()
-	res.Delays = sim.delays
+	res.Delays = map[int][]time.Duration{}
+	for _, l := range sim.loops {
+		res.Delays[l.id] = l.delays
+	}
 	sim.mu.Unlock()
 	rn.kv.Kill()
 	rn.closeInstance()
+	lap(5)
 	res.Calls, res.OpStart, res.OpErr, res.Runaway, res.PostMortem = rn.calls, rn.opStart, rn.opErr, rn.runaway, rn.postMortem
 	res.StopLoop = -1
 	if res.Stopped && res.StopStep.N >= 1 && res.StopStep.N <= len(rn.stepLoop) {
@@ -760,6 +783,11 @@ func c14Judge(sc c14Scenario, res *c14Result) []c14Finding {
 				}
 				continue
 			}
+			if sub == "all" {
+				// both event types of one transaction share one shelf key for an unfiltered subscriber (row 10): deliveries are
+				// mixed up between the two events, so budget, completion and end state are not judged per event
+				continue
+			}
 			// no call after a recorded completion
 			recorded := false
 			for _, c := range cs {
@@ -784,7 +812,11 @@ func c14Judge(sc c14Scenario, res *c14Result) []c14Finding {
 					}
 					n++
 					if fatalSeen {
-						add("retried-after-fatal", sub, "%s event of %s delivered again in the same process after a fatal answer", k.typ, k.tx)
+						where := "after-notify"
+						if life == 1 {
+							where = "after-run-at-start"
+						}
+						add("retried-after-fatal|"+where, sub, "%s event of %s delivered again in the same process (life %d) after the subscriber answered with a fatal error", k.typ, k.tx, life)
 						break
 					}
 					fatalSeen = c.Result == "fatal"
@@ -792,9 +824,6 @@ func c14Judge(sc c14Scenario, res *c14Result) []c14Finding {
 				if n > 1+maxRetries {
 					add("retry-budget", sub, "%s event of %s delivered %d times in one process lifetime (budget %d)", k.typ, k.tx, n, 1+maxRetries)
 				}
-			}
-			if sub == "all" {
-				continue // both event types share one shelf key for an unfiltered subscriber (row 10): end state not judged
 			}
 			// end state: completion recorded, or still visible as failed — never vanished
 			completed := false
@@ -887,11 +916,19 @@ func c14Histories(maxLen int, thorough bool) [][]c14Op {
 
 type c14Behaviour struct{ faulty, script string }
 
-func c14Behaviours(set string, thorough bool) []c14Behaviour {
-	out := []c14Behaviour{{"", "ok"}}
-	scripts := []string{"fail1", "incomplete2", "fatal", "failforever"}
+func c14Behaviours(set string, thorough, long bool) []c14Behaviour {
+	var out []c14Behaviour
+	scripts := []string{"fail1", "incomplete2", "fatal"}
 	if thorough {
-		scripts = append(scripts, "fail3", "fail9", "fail10", "fail19", "fail20", "fail21")
+		scripts = append(scripts, "fail3")
+	}
+	if long {
+		scripts = []string{"failforever"}
+		if thorough {
+			scripts = append(scripts, "fail9", "fail10", "fail19", "fail20", "fail21")
+		}
+	} else {
+		out = append(out, c14Behaviour{"", "ok"})
 	}
 	for _, sp := range c14Subs(set) {
 		for _, s := range scripts {
@@ -901,15 +938,30 @@ func c14Behaviours(set string, thorough bool) []c14Behaviour {
 	return out
 }
 
+// c14StopClass names the place of the stop in the words of the statement.
 func c14StopClass(res *c14Result, sc c14Scenario) string {
 	if !res.Stopped {
 		return "no-stop"
 	}
-	phase := "in-operation"
-	if res.StopLoop >= 0 {
-		phase = "in-retry-loop"
+	st := res.StopStep
+	if st.Kind == "receiver-call" {
+		return "stop-before-delivery"
 	}
-	return "stop@" + res.StopStep.Label() + "|" + phase
+	if res.StopLoop >= 0 {
+		return "stop-during-retries"
+	}
+	if st.Kind == fault.AfterCommit {
+		return "stop-between-commit-and-notification"
+	}
+	for _, b := range res.Trace {
+		if b.Tx == st.Tx && b.Kind == fault.Begin {
+			if b.Shelf == "" {
+				return "stop-before-commit"
+			}
+			break
+		}
+	}
+	return "stop-between-delivery-and-completion-marking" // a job-shelf transaction of the notifier on the notifying goroutine
 }
 
 func TestVerifC14(t *testing.T) {
@@ -937,7 +989,7 @@ func TestVerifC14(t *testing.T) {
 	if r.ReplayCase(&rc) {
 		txs, pays, names := c14MakeTxs(rc.Ops)
 		res := c14Execute(t, sim, rc, txs, pays, names)
-		r.Eval(rc.key() + "|" + strconv.Itoa(rc.StopAt))
+		r.Eval(rc.key() + "|" + strconv.Itoa(rc.StopAt) + "|" + strconv.Itoa(rc.StopCall))
 		c14Report(r, rc, res)
 		for _, c := range res.Calls {
 			fmt.Printf("call %+v\n", c)
@@ -950,67 +1002,125 @@ func TestVerifC14(t *testing.T) {
 	}
 
 	hists := c14Histories(maxLen, thorough)
+	short := c14Histories(maxLen-1, thorough) // the long scripts (20 attempts per event) run on the shorter histories
 	r.Bound("histories", len(hists))
-	idx := 0
-	var runs, fired int64
-	sampled := 0
+	r.Bound("histories_for_long_scripts", len(short))
+	type variant struct {
+		h            []c14Op
+		set          string
+		b            c14Behaviour
+		drain, order string
+		long         bool
+	}
+	var variants []variant
 	for _, set := range []string{"product", "generic"} {
-		behs := c14Behaviours(set, thorough)
-		for _, h := range hists {
-			txs, pays, names := c14MakeTxs(h)
-			for _, b := range behs {
-				for _, od := range []string{"each/asc", "end/asc", "each/desc", "end/desc"} {
-					drain, order := strings.Split(od, "/")[0], strings.Split(od, "/")[1]
-					if b.faulty == "" && drain == "end" {
-						continue // no retry loops: both policies are the same run
-					}
-					idx++
-					if !r.Mine(idx) {
-						continue
-					}
-					if r.Expired() {
-						return
-					}
-					sc := c14Scenario{Ops: h, Set: set, Faulty: b.faulty, Script: b.script, Drain: drain, Order: order}
-					dry := c14Execute(t, sim, sc, txs, pays, names)
-					runs++
-					r.Eval("")
-					c14Report(r, sc, dry)
-					if dry.PostMortem > 0 {
-						r.Observation("receiver-called-by-abandoned-instance", sc)
-					}
-					labels := make([]string, len(dry.Trace))
-					for i, s := range dry.Trace {
-						labels[i] = s.Label()
-					}
-					if sampled < 3 && b.faulty != "" {
-						sampled++
-						r.Sample(map[string]any{"scenario": sc, "write_steps": labels, "calls": len(dry.Calls)})
-					}
-					for k := 1; k <= len(dry.Trace); k++ {
-						sck := sc
-						sck.StopAt = k
-						res := c14Execute(t, sim, sck, txs, pays, names)
-						runs++
-						if !res.Stopped {
-							r.Eval("")
-							r.Observation("stop-not-reached", sck)
+		for _, long := range []bool{false, true} {
+			hs := hists
+			if long {
+				hs = short
+			}
+			for _, h := range hs {
+				for _, b := range c14Behaviours(set, thorough, long) {
+					for _, od := range []string{"each/asc", "end/asc", "each/desc", "end/desc"} {
+						drain, order := strings.Split(od, "/")[0], strings.Split(od, "/")[1]
+						if (b.faulty == "" || b.script == "fatal") && drain == "end" {
+							continue // no retry loops before the crash: both policies are the same run
+						}
+						if order == "desc" && !thorough && !(b.faulty == "" || b.script == "fail1") {
 							continue
 						}
-						fired++
-						// determinism: the crashed run saw the same steps as the dry run up to the stop
-						for i := 0; i < k && i < len(res.Trace); i++ {
-							if res.Trace[i].Label() != labels[i] {
-								t.Fatalf("harness: nondeterministic step numbering in %s: step %d is %q, dry run had %q", sck.key(), i+1, res.Trace[i].Label(), labels[i])
-							}
-						}
-						r.Eval(sck.key() + "|" + strconv.Itoa(k))
-						r.Outcome(c14StopClass(res, sck))
-						c14Report(r, sck, res)
+						variants = append(variants, variant{h, set, b, drain, order, long})
 					}
 				}
 			}
 		}
+	}
+	r.Bound("scenarios", len(variants))
+	var runs, fired int64
+	sampled := 0
+	shard, nsh := r.Shard()
+	for vi, v := range variants {
+		// scenarios with long scripts have hundreds of stop points: every worker makes their dry run and the stop points
+		// are dealt round-robin; all other scenarios belong to one worker each
+		owner := r.Mine(vi)
+		if !owner && !v.long {
+			continue
+		}
+		mine := func(k int) bool { return owner && !v.long || v.long && (vi+k)%nsh == shard }
+		if r.Expired() {
+			break
+		}
+		txs, pays, names := c14MakeTxs(v.h)
+		sc := c14Scenario{Ops: v.h, Set: v.set, Faulty: v.b.faulty, Script: v.b.script, Drain: v.drain, Order: v.order}
+		dry := c14Execute(t, sim, sc, txs, pays, names)
+		if owner {
+			runs++
+			r.Eval("")
+			r.Outcome("no-stop")
+		}
+		c14Report(r, sc, dry)
+		if dry.PostMortem > 0 {
+			r.Observation("receiver-called-by-abandoned-instance", sc)
+		}
+		labels := make([]string, len(dry.Trace))
+		for i, s := range dry.Trace {
+			labels[i] = s.Label()
+		}
+		if sampled < 2 && v.b.faulty != "" && owner {
+			sampled++
+			r.Sample(map[string]any{"scenario": sc, "write_steps": labels, "receiver_calls": len(dry.Calls)})
+		}
+		for k := 1; k <= len(dry.Trace); k++ {
+			if !mine(k) {
+				continue
+			}
+			sck := sc
+			sck.StopAt = k
+			res := c14Execute(t, sim, sck, txs, pays, names)
+			runs++
+			if !res.Stopped {
+				r.Eval("")
+				r.Observation("stop-not-reached", sck)
+				continue
+			}
+			fired++
+			// determinism: the crashed run saw the same steps as the dry run up to the stop
+			for i := 0; i < k && i < len(res.Trace); i++ {
+				if res.Trace[i].Label() != labels[i] {
+					t.Fatalf("harness: nondeterministic step numbering in %s: step %d is %q, dry run had %q", sck.key(), i+1, res.Trace[i].Label(), labels[i])
+				}
+			}
+			r.Eval(sck.key() + "|" + strconv.Itoa(k))
+			r.Outcome(c14StopClass(res, sck))
+			c14Report(r, sck, res)
+		}
+		nCalls := 0
+		for _, c := range dry.Calls {
+			if c.Life == 0 {
+				nCalls++
+			}
+		}
+		for j := 1; j <= nCalls; j++ {
+			if !mine(len(dry.Trace) + j) {
+				continue
+			}
+			sck := sc
+			sck.StopCall = j
+			res := c14Execute(t, sim, sck, txs, pays, names)
+			runs++
+			if !res.Stopped {
+				r.Eval("")
+				r.Observation("stop-not-reached", sck)
+				continue
+			}
+			fired++
+			r.Eval(sck.key() + "|call" + strconv.Itoa(j))
+			r.Outcome(c14StopClass(res, sck))
+			c14Report(r, sck, res)
+		}
+	}
+	if os.Getenv("C14_TIMING") != "" {
+		fmt.Println("TIMING open0, life0, close0, open1, run1, close1:", c14T[:6])
 	}
 	r.AddExtra("runs", runs)
 	r.AddExtra("stops_fired", fired)
@@ -1034,7 +1144,10 @@ func c14Report(r *ev.Run, sc c14Scenario, res *c14Result) {
 			sig = "C14|unfiltered-subscriber|never-delivered|" + typ
 		} else {
 			sig = "C14|" + f.clause + "|" + f.sub + "|" + script + "|" + c14StopClass(res, sc)
+			if strings.HasPrefix(f.clause, "retried-after-fatal") {
+				sig = "C14|" + f.clause // one defect, one signature: the place of the stop does not matter
+			}
 		}
-		r.Violation(sig, f.detail+" ["+sc.key()+" stop="+strconv.Itoa(sc.StopAt)+"]", sc)
+		r.Violation(sig, f.detail+" ["+sc.key()+" stop="+strconv.Itoa(sc.StopAt)+" stopcall="+strconv.Itoa(sc.StopCall)+"]", sc)
 	}
 }
